@@ -417,9 +417,10 @@ def run_shard(ctx):
         elif nontrivial:
             # bounded-exhaustive ordered selections on a deterministic subset of the corpus,
             # random sequences with repetition on everything
-            if int(ch[:2], 16) % (12 if ctx.tier == "quick" else 2) == 0 and len(data) < 2500:
+            if int(ch[:2], 16) % (12 if ctx.tier == "quick" else 4) == 0 and len(data) < 2500:
                 qs = [q for q in QUERIES if q not in ("dumps", "ast_dump", "str_results")]
-                seqs += [list(s) for s in itertools.permutations(qs, maxlen)]
+                # (ordered selections of 3 out of ~12 questions are 1320 sequences: only for short inputs)
+                seqs += [list(s) for s in itertools.permutations(qs, maxlen if len(data) < 200 else min(maxlen, 2))]
             for _ in range(3 if ctx.tier == "quick" else 5):
                 seqs.append([rng.choice(QUERIES) for _ in range(rng.randint(3, 8))])
         else:
